@@ -278,6 +278,14 @@ func exploreSubjects(subs []envSubject, shard, nshards int, hashChoice bool) env
 			}
 			return r
 		}
+		if cs, ok := parseCompact(only); ok && only != "" {
+			if shard == 0 {
+				// seed `want` with the default execution, then replay the recorded one
+				ex.Run(&mc.Tape{})
+				return replayOne(sub.desc, ex.Run, cs)
+			}
+			return w
+		}
 		ex.Explore()
 		if shard == 0 {
 			w.Scenarios++
@@ -475,4 +483,46 @@ func compact(cs []int) string {
 	}
 	fmt.Fprintf(&b, "} of %d", len(cs))
 	return b.String()
+}
+
+// parseCompact is the inverse of compact; ok is false if the key holds no choice list.
+func parseCompact(key string) ([]int, bool) {
+	i := strings.LastIndex(key, "{")
+	j := strings.LastIndex(key, "} of ")
+	if i < 0 || j < i {
+		return nil, false
+	}
+	var n int
+	if _, err := fmt.Sscan(key[j+5:], &n); err != nil || n < 0 || n > 10000000 {
+		return nil, false
+	}
+	cs := make([]int, n)
+	for _, f := range strings.Fields(key[i+1 : j]) {
+		var pos, c int
+		if _, err := fmt.Sscanf(f, "%d:%d", &pos, &c); err != nil || pos >= n {
+			return nil, false
+		}
+		cs[pos] = c
+	}
+	return cs, true
+}
+
+// replayOne re-runs exactly one recorded execution and reports it like the explorer would.
+func replayOne(desc string, run func(t *mc.Tape) mc.Result, choices []int) envrun.WorkerResult {
+	var w envrun.WorkerResult
+	r1, t1 := mc.Replay(run, choices)
+	r2, t2 := mc.Replay(run, choices)
+	w.Executions = 2
+	w.Points = len(t1.Points) + len(t2.Points)
+	w.Scenarios = 1
+	fmt.Fprintf(os.Stderr, "replay of %s\n  choices: %s\n  outcome: %s\n  failure: %s\n", desc, compact(choices), trunc(r1.Outcome, 2000), r1.Failure)
+	switch {
+	case t1.Diverged != nil || t2.Diverged != nil:
+		w.Divergence = fmt.Sprint(t1.Diverged, t2.Diverged)
+	case r1.Outcome != r2.Outcome:
+		w.Divergence = "the same choice list gave two different outcomes"
+	case r1.Failure != "":
+		w.Failures = append(w.Failures, envrun.Failure{Key: desc + " choices " + compact(choices), Choices: choices, What: r1.Failure})
+	}
+	return w
 }
